@@ -43,8 +43,8 @@ Definition read_only (r : mech_row) : bool := forallb meth_read_only (r_methods 
     table extracted from the current source: no method of the mechanism type has any effect.
     (Until the fix: commit 13721c3 the rows of [jwtAuthenticator] and
     [oauth2IntrospectionAuthenticator] listed the stores of [oauth2.MetadataEndpoint.init] — finding
-    C17-F1; the check was then carried under a guard on exactly those effects.  The pinned rows are
-    kept in C17/Proofs.v as the witness of [F1_pinned_refuted].) *)
+    C17-F1; the check was then carried under a guard on exactly those effects.  The pinned
+    jwtAuthenticator row is kept in C17/Proofs.v as the witness of [F1_pinned_refuted].) *)
 Definition row_ok (r : mech_row) : bool := read_only r.
 
 Definition find_row (tbl : list mech_row) (ty : string) : option mech_row :=
